@@ -374,6 +374,15 @@ func (P *Program) mapLiteral(pkgPath, varName string) (map[string]string, []stri
 						}
 						key := strings.Trim(tv.Value.ExactString(), `"`)
 						var val string
+						if vtv, ok := p.TypesInfo.Types[kv.Value]; ok && vtv.Value != nil {
+							val = vtv.Value.ExactString()
+							if _, dup := out[key]; dup {
+								return nil, nil, fmt.Errorf("%s: duplicate key %s", varName, key)
+							}
+							out[key] = val
+							order = append(order, key)
+							continue
+						}
 						switch v := kv.Value.(type) {
 						case *ast.Ident:
 							val = v.Name
